@@ -608,11 +608,11 @@ func checkC16(p *Prog, r *Report) {
 	// AttrControl.AddTo
 	if f := p.Fn("AttrControl.AddTo"); r.Anchor("AttrControl.AddTo", f != nil) {
 		t := p.NewTable(f)
-		t.Event = func(n ast.Node, _ *TEnv) []string {
+		t.Event = func(n ast.Node, env *TEnv) []string {
 			var out []string
 			for _, c := range p.NodeCalls(n) {
 				if p.CalleeName(c) == "ice.tiebreaker.AddToAs" && len(c.Args) == 2 {
-					out = append(out, p.constName(c.Args[1]))
+					out = append(out, env.ConstName(p, c.Args[1]))
 				}
 			}
 			return out
